@@ -13,6 +13,8 @@ RULE = ("descriptor tables drawn from a grammar over target kinds (regular/delet
         "printed items (numeric, blank, colon-free, non-numeric lines, duplicates) plus a malformed byte stream. A case is "
         "non-trivial when the table or file is non-empty; distinct = distinct canonical case hash.")
 TRUSTED = ["correspondence harness props/C14.py + pv/ (fake /proc tree, os.readlink fault injection)",
+           "translator props/C14.py:gen_tables (Python ast of file_flags_to_mode -> coq/C14/PyMini.v program; io_counters constants) and "
+           "the interpreter run_prog as the meaning of those statements; os.O_* values of the Linux ABI",
            "kernel formats of /proc/<pid>/fd, fdinfo, io transcribed from proc(5) in coq/C14/Spec.v"]
 ASSUMPTIONS = ["CPython semantics of bytes.split/strip/int and os.listdir order are modelled, not verified",
                "fdinfo and io contents with more than 4300 digits per number are out of the model"]
